@@ -80,9 +80,19 @@ pub fn timeout_ms() -> u64 {
     if let Some(t) = TIMEOUT_OVERRIDE.with(|t| t.get()) {
         return t;
     }
-    ctx(|c| match c.tier {
-        Tier::Quick => 20_000,
-        Tier::Thorough => 120_000,
+    ctx(|c| {
+        // time budget of a whole run: once the solver has used it up (a change to the code under test can turn hundreds of
+        // 50 ms proofs into 20 s model searches), the remaining queries get a short limit so that the run still ends with a
+        // verdict (violations found so far, the rest inconclusive) instead of being cut off by the driver
+        let (limit, budget_ms) = match c.tier {
+            Tier::Quick => (20_000, 420_000.0),
+            Tier::Thorough => (120_000, 4.0 * 3_600_000.0),
+        };
+        if c.solver_ms > budget_ms {
+            3_000
+        } else {
+            limit
+        }
     })
 }
 
@@ -202,7 +212,7 @@ pub fn model_checks(asserts: &[F], m: &HashMap<String, String>) -> bool {
 fn check_retry(name: &str, asserts: &[F], to: u64, want_model: bool) -> solver::QueryStat {
     let st = ctx(|c| c.solvers.check(name, asserts, to, want_model));
     let deliberate = TIMEOUT_OVERRIDE.with(|t| t.get()).is_some();
-    if matches!(st.answer, Answer::Unknown(_)) && !deliberate && st.ms >= 0.8 * to as f64 {
+    if matches!(st.answer, Answer::Unknown(_)) && !deliberate && st.ms >= 0.8 * to as f64 && to > 3_000 {
         ctx(|c| c.retries += 1);
         let mut st2 = ctx(|c| c.solvers.check(&format!("{} [retry, {} s limit]", name, 5 * to / 1000), asserts, 5 * to, want_model));
         st2.ms += st.ms;
